@@ -8,6 +8,7 @@ pub mod basic_rules;
 pub mod circuit;
 pub mod decompose;
 pub mod detection_webs;
+pub mod equality;
 pub mod extract;
 pub mod gate;
 pub mod generate;
